@@ -86,6 +86,14 @@ func (d *Document) Process(mergeFromDocs []*Document) ([]*Document, error) {
 
 	ec := NewEvalContext()
 
+	// Evaluate a copy: producing output must not rewrite the merged tree
+	// that the parser holds and exposes through Documents().
+	d = &Document{
+		ID:      d.ID,
+		Parents: d.Parents,
+		Data:    cloneTree(d.Data),
+	}
+
 	d.Data, err = process1(d.Data, d, mergeFromDocs, 0)
 	if err != nil {
 		return nil, err
